@@ -251,7 +251,7 @@ impl C13 {
 
 impl Monitor for C13 {
     fn total_cases(&self) -> u64 {
-        self.tier.pick(2_000, 150_000)
+        self.tier.pick(20_000, 500_000)
     }
     fn run_case(&mut self, k: u64, rng: &mut Rng, col: &mut Collector) {
         self.history(k, rng, col);
